@@ -1,6 +1,7 @@
 package main
 
 import (
+	"fmt"
 	"sort"
 
 	networking "istio.io/api/networking/v1alpha3"
@@ -78,18 +79,37 @@ func showDRs(sc *model.SidecarScope) string {
 				from = append(from, wire.Enc(f.Namespace+"/"+f.Name))
 			}
 			var subs []string
-			for _, sub := range c.GetRule().Spec.(*networking.DestinationRule).Subsets {
-				subs = append(subs, wire.Enc(sub.Name))
+			rule := c.GetRule().Spec.(*networking.DestinationRule)
+			for _, sub := range rule.Subsets {
+				it := wire.Enc(sub.Name)
+				if mc := sub.GetTrafficPolicy().GetConnectionPool().GetTcp().GetMaxConnections(); mc != 0 {
+					it += "~" + strconv.Itoa(int(mc))
+				}
+				subs = append(subs, it)
 			}
 			sj := "-"
 			if len(subs) > 0 {
 				sj = strings.Join(subs, "+")
 			}
+			// the merged top-level traffic policy: pool:lb and the port-level entries port/pool/lb
+			sj += "/" + showTP(rule.GetTrafficPolicy())
 			cs = append(cs, strings.Join(from, "+")+"/"+sj)
 		}
 		items = append(items, wire.Enc(h)+">"+strings.Join(cs, "&"))
 	}
 	return strings.Join(items, ",")
+}
+
+func showTP(tp *networking.TrafficPolicy) string {
+	if tp == nil {
+		return "n"
+	}
+	out := num(int(tp.GetConnectionPool().GetTcp().GetMaxConnections())) + ":" + num(int(tp.GetLoadBalancer().GetSimple()))
+	for _, pl := range tp.PortLevelSettings {
+		out += fmt.Sprintf(";%d/%s/%s", pl.GetPort().GetNumber(), num(int(pl.GetConnectionPool().GetTcp().GetMaxConnections())),
+			num(int(pl.GetLoadBalancer().GetSimple())))
+	}
+	return out
 }
 
 func showScope(sc *model.SidecarScope) string {
@@ -309,15 +329,42 @@ func (w *world) drVisibleDoc(d *drSpec, ns string) bool {
 	return false
 }
 
-// drNotExportedClause names the cause of a DestinationRule reaching a namespace it is not exported to.
-func (w *world) drNotExportedClause(d *drSpec) string {
-	switch {
-	case !w.enhanced:
-		return "dr-not-exported:legacy-merge-flag-off"
-	case len(d.exportTo) == 0 && d.selector == nil:
-		return "dr-not-exported:mesh-default-namespace-list"
+// drNotExportedKind names the cause of a DestinationRule d (one of the rules `from` of a consolidated rule)
+// reaching a namespace it is not exported to:
+//   - legacy-merge-flag-off: the enhanced merge is off AND d was consolidated with other rules at least one of
+//     which is exported to ns (the legacy merge ignores exportTo) - the flag alone is not a cause;
+//   - mesh-default-namespace-list: d declares no exportTo and the mesh default is a list the pre-b2c085f code read
+//     as public (no "." in it) although it does not export to ns;
+//   - otherwise the plain clause.
+func (w *world) drNotExportedKind(d *drSpec, ns string, from []string) string {
+	if !w.enhanced && len(from) > 1 {
+		for _, k := range from {
+			if o := w.drByKey(k); o != nil && o != d && w.drVisibleDoc(o, ns) {
+				return "dr-not-exported:legacy-merge-flag-off"
+			}
+		}
+	}
+	if len(d.exportTo) == 0 && d.selector == nil && !w.mesh.nilDR && len(w.mesh.defDR) > 0 {
+		dot := false
+		for _, x := range w.mesh.defDR {
+			dot = dot || x == "."
+		}
+		if !dot {
+			return "dr-not-exported:mesh-default-namespace-list"
+		}
 	}
 	return "dr-not-exported"
+}
+
+// fromKeys: the names of the rules merged into the consolidated rules of one hostname of a scope.
+func fromKeys(sc *model.SidecarScope, hostname string) []string {
+	var out []string
+	for _, c := range model.VerifC07ScopeDestinationRules(sc)[hostName(hostname)] {
+		for _, f := range model.VerifC07From(c) {
+			out = append(out, f.Namespace+"/"+f.Name)
+		}
+	}
+	return out
 }
 
 // aliasVisibleDoc: the alias (namespace, hostname) is backed by a service of that key that is
@@ -722,10 +769,14 @@ func (w *world) oracleOneScope(sc *model.SidecarScope, ns string, gateway bool, 
 					return "dr-unknown " + f.Name
 				}
 				if !w.drVisibleDoc(d, ns) {
-					v := w.drNotExportedClause(d) + " " + d.ns + "/" + d.name + " " + ns
-					if !w.enhanced {
-						// the legacy merge (ENABLE_ENHANCED_DESTINATIONRULE_MERGE=false) is a listed known
-						// finding: report it only if nothing else is wrong with the case
+					var from []string
+					for _, g := range model.VerifC07From(c) {
+						from = append(from, g.Namespace+"/"+g.Name)
+					}
+					kind := w.drNotExportedKind(d, ns, from)
+					v := kind + " " + d.ns + "/" + d.name + " " + ns
+					if kind == "dr-not-exported:legacy-merge-flag-off" {
+						// a listed known finding: report it only if nothing else is wrong with the case
 						if w.deferred == "" {
 							w.deferred = v
 						}
@@ -764,24 +815,10 @@ func (w *world) oracleOneScope(sc *model.SidecarScope, ns string, gateway bool, 
 	return ""
 }
 
-func (w *world) oracleScope() string {
-	var routerNs []string
-	for _, t := range w.queries {
-		if t[0] == "xdsgw" && len(t) == 2 {
-			routerNs = append(routerNs, wire.Dec(t[1]))
-		}
-	}
-	if v := w.oracleScopeQueries(); v != "" {
-		return v
-	}
-	if len(routerNs) > 0 {
-		return w.oracleRouterFiltered(routerNs)
-	}
-	return ""
-}
-
-func (w *world) oracleScopeQueries() string {
-	for _, t := range w.queries {
+// oracleQuery evaluates the property on the real answer to one query of a case, on the PushContext as it
+// is at that point of the case (freshly built, or incrementally updated).
+func (w *world) oracleQuery(t []string) string {
+	{
 		switch {
 		case t[0] == "scope" && len(t) == 3:
 			lbl, _ := decLabels(t[2])
